@@ -1,0 +1,53 @@
+//go:build verif
+
+// Contracts for the verification machinery in /verif (govc). This file is only compiled with -tags verif;
+// it adds no behaviour to the package. Syntax: see /verif/DESIGN.md, Appendix A.
+package stream
+
+// verifAssume / verifAssert are the harness primitives: govc treats them as assumption and obligation;
+// natively (replays) a violated assertion panics with its label.
+func verifAssume(c bool) {
+	if !c {
+		panic("verifAssume: precondition of the harness not met")
+	}
+}
+
+func verifAssert(label string, c bool) {
+	if !c {
+		panic("verifAssert violated: " + label)
+	}
+}
+
+// ---- C16: stream chunk decoders ---------------------------------------------------------------------------------
+
+// gRPC streams: Recv returns a message or an error (the chunk CONTENT is the untrusted input, unconstrained).
+//@ iface ImmuServiceReceiver_Stream.Recv
+//@   ensures msg: r1 == nil ==> r0 != nil
+//@   assigns self
+
+// vr is a non-nil reader; bufferSize is the configured chunk size (Options.StreamChunkSize / MaxRecvMsgSize: a positive
+// configuration value, never taken from the stream).
+// No `decreases` for loop 1: every iteration consumes one Read of the external reader; it ends with the stream.
+//@ func ReadValue
+//@   requires reader: vr != nil
+//@   requires size: 0 <= bufferSize && bufferSize <= 1<<40
+
+//@ func ParseVerifiableEntry
+//@   requires reader: vr != nil
+//@   requires size: 0 <= chunkSize && chunkSize <= 1<<40
+
+// msgReceiver is only built by NewMsgReceiver: stream is the caller's stream, b a fresh bytes.Buffer.
+// No `decreases` for the Recv loops: every iteration consumes one message of the gRPC stream.
+//@ func (*msgReceiver).ReadFully
+//@   requires wf: r.stream != nil && r.b != nil
+//@   requires sep: !sameobj(r.stream, r)
+//@   loop 1 invariant range: 0 <= read && len(b) == msgSize
+//@   loop 1 assigns r.stream, b
+
+//@ func (*msgReceiver).Read
+//@   requires wf: r.stream != nil && r.b != nil
+//@   requires sep: !sameobj(r.stream, r) && !sameobj(r.b, r) && !sameobj(r.stream, r.b)
+//@   loop 1 invariant wf: r.stream != nil && r.b != nil && r.b == old(r.b) && r.stream == old(r.stream)
+//@   loop 1 assigns r, r.b, r.stream
+//@   loop 2 invariant wf: r.stream != nil && r.b != nil && r.b == old(r.b) && r.stream == old(r.stream)
+//@   loop 2 assigns r, r.b, r.stream
